@@ -49,6 +49,8 @@ REPORT_BLOCK_SIZE = 24
 
 # ---- SDES (RFC 3550 §6.5)
 SDES_PRIV = 8
+# RFC 3550 §6.5.1-6.5.8: SDES item type numbers
+SDES_ITEM_TYPES = {"CNAME": 1, "NAME": 2, "EMAIL": 3, "PHONE": 4, "LOC": 5, "TOOL": 6, "NOTE": 7, "PRIV": 8}
 SDES_ITEM_HEADER = 2       # type, length
 # chunk: SSRC(4) items... at least one null octet, then nulls to the next 32-bit boundary
 # PRIV (§6.5.8): length byte L = 1 + p + v; prefix length at +2; prefix [+3, +3+p); value [+3+p, +2+L)
